@@ -341,6 +341,10 @@ class Tensor:
     if n is None:
       raise Unsupported("iteration over tensor with symbolic leading dim")
     if len(self.shape) == 1:
+      if self.tags.get("numpy_float64_value"):
+        # iterating a NumPy float64 array yields np.float64 scalars (strongly typed, unlike python floats)
+        return iter([Tensor((), self.dtype, (lambda idx, i=i: self.at((i,))), {"numpy_float64_value": self.tags["numpy_float64_value"]})
+                     for i in range(n)])
       # numpy yields scalars when iterating a 1-D array
       return iter([self.at((i,)) for i in range(n)])
     return iter([self[i] for i in range(n)])
@@ -757,6 +761,15 @@ def ew(f, *operands, cmp=False, dtype=None):
     t = _lift_operand(o)
     note_use(t)
     ts.append(t)
+  if len(ts) > 1 and not cmp:
+    owned = [t for t in ts if t is not None and t.tags.get("numpy_owned") and t.dtype.kind == "f" and t.dtype.name != "float64"]
+    strong = [t for t in ts if t is not None and t.tags.get("numpy_float64_value")]
+    if owned and strong:
+      c = sym._ctx.CUR
+      if c is not None:
+        c.fail(f"frame:numpy-promotion-on-a-caller-owned-state-leaf@{getattr(c, 'site', '')}", kind="frame",
+               detail=f"{owned[0].tags.get('numpy_owned')} ({owned[0].dtype.name}) combined with a float64 NumPy value from np.{strong[0].tags['numpy_float64_value']}: "
+                      "NumPy computes this in float64 on a restored state, jax in float32 on the uninterrupted one")
   shapes = [t.shape for t in ts if t is not None]
   out_shape = broadcast_shapes(*shapes) if shapes else ()
   r = len(out_shape)
